@@ -8,6 +8,9 @@
  *   I src|mask solid r g b a | bits fmt w h seed repeat | linear repeat alpha1 alpha2 | none
  *   A dst fmt w h ox oy seed               destination alpha map (own logged allocation)
  *   A src|mask fmt w h ox oy               alpha map of a source (no clip)
+ *   AO role ox oy | AD role                same alpha map again at another origin | detach it
+ *   T src|mask tx ty | P src|mask repeat   pixman_image_set_transform (translation) | _set_repeat
+ *   (A, AO, AD, C, F, T, P may be repeated in any order: S logs the FINAL properties)
  *   C dst|src|mask n (x1 y1 x2 y2)*        pixman_image_set_clip_region32 (n = -1: NULL)
  *   F src|mask clip_sources client_clip    pixman_image_set_source_clipping / _set_has_client_clip
  *   G id fmt w h ox oy seed                glyph id (image + origin) inserted into the glyph cache
@@ -26,7 +29,7 @@
 #include "frame_common.h"
 
 static fc_store_t dst, dalpha;
-static int d_ox, d_oy;
+static int d_ox, d_oy, d_attached;          /* dalpha is attached to dst at (d_ox, d_oy) */
 static fc_clipstate_t cst[3];                /* dst, src, mask */
 static pixman_image_t *simg[3];              /* [1] src, [2] mask */
 static uint32_t *sbits[3];
@@ -73,7 +76,7 @@ reset_all (void)
 	pixman_glyph_cache_destroy (cache);
     cache = NULL;
     memset (glyph, 0, sizeof glyph);
-    d_ox = d_oy = 0;
+    d_ox = d_oy = d_attached = 0;
 }
 
 static uint32_t *
@@ -105,7 +108,7 @@ log_draw (const char *api, const char *op, const int *rq, int xoff, int yoff, co
     vt_int ("yoff", yoff);
     fc_log_quads ("shapes", tv, n, per);
     fc_log_store ("after", &dst);
-    if (dalpha.img)
+    if (d_attached)
 	fc_log_store ("aafter", &dalpha);
     else
 	fprintf (vt_out, ",\"aafter\":[]");
@@ -215,21 +218,83 @@ main (int argc, char **argv)
 	    {
 		int st;
 		fc_read_ints (in, v, 5);
+		fc_store_t fresh;
 		st = ((v[0] * PIXMAN_FORMAT_BPP (fc_format (fmt)) + 31) / 32) * 4 + 4;
-		fc_store_image (&dalpha, fmt, v[0], v[1], st, 8, 8, (unsigned)v[4]);
+		fc_store_image (&fresh, fmt, v[0], v[1], st, 8, 8, (unsigned)v[4]);
 		d_ox = v[2];
 		d_oy = v[3];
-		pixman_image_set_alpha_map (dst.img, dalpha.img, (int16_t)d_ox, (int16_t)d_oy);
+		/* attaches, or replaces the map attached before (which is then released) */
+		pixman_image_set_alpha_map (dst.img, fresh.img, (int16_t)d_ox, (int16_t)d_oy);
+		if (dalpha.mem)
+		    fc_store_free (&dalpha);
+		dalpha = fresh;
+		d_attached = 1;
 	    }
 	    else
 	    {
 		int st;
 		pixman_format_code_t code = fc_format (fmt);
+		pixman_image_t *old = salpha[r];
+		uint32_t *oldbits = salphabits[r];
 		fc_read_ints (in, v, 4);
 		salphabits[r] = random_bits (code, v[0], v[1], 99, &st);
 		salpha[r] = pixman_image_create_bits (code, v[0], v[1], salphabits[r], st);
 		pixman_image_set_alpha_map (simg[r], salpha[r], (int16_t)v[2], (int16_t)v[3]);
+		if (old) pixman_image_unref (old);
+		free (oldbits);
 	    }
+	}
+	else if (!strcmp (cmd, "AO"))
+	{
+	    /* AO role ox oy: set the SAME alpha map again, at another origin (re-attaches it if it was detached) */
+	    int r, v[2];
+	    if (fscanf (in, "%15s", role) != 1) return 3;
+	    r = role_of (role);
+	    fc_read_ints (in, v, 2);
+	    if (r == 0)
+	    {
+		if (!dalpha.img) return 3;
+		d_ox = v[0];
+		d_oy = v[1];
+		pixman_image_set_alpha_map (dst.img, dalpha.img, (int16_t)d_ox, (int16_t)d_oy);
+		d_attached = 1;
+	    }
+	    else if (salpha[r])
+		pixman_image_set_alpha_map (simg[r], salpha[r], (int16_t)v[0], (int16_t)v[1]);
+	}
+	else if (!strcmp (cmd, "AD"))
+	{
+	    /* AD role: detach the alpha map (the map itself is kept for a later AO) */
+	    int r;
+	    if (fscanf (in, "%15s", role) != 1) return 3;
+	    r = role_of (role);
+	    if (r == 0)
+	    {
+		pixman_image_set_alpha_map (dst.img, NULL, 0, 0);
+		d_attached = 0;
+	    }
+	    else
+		pixman_image_set_alpha_map (simg[r], NULL, 0, 0);
+	}
+	else if (!strcmp (cmd, "T"))
+	{
+	    /* T src|mask tx ty: integer translation as the image's transform (0 0: identity) */
+	    int r, v[2];
+	    pixman_transform_t t;
+	    if (fscanf (in, "%15s", role) != 1) return 3;
+	    r = role_of (role);
+	    fc_read_ints (in, v, 2);
+	    pixman_transform_init_translate (&t, pixman_int_to_fixed (v[0]), pixman_int_to_fixed (v[1]));
+	    pixman_image_set_transform (simg[r], (v[0] || v[1]) ? &t : NULL);
+	}
+	else if (!strcmp (cmd, "P"))
+	{
+	    /* P src|mask repeat */
+	    int r, v[1];
+	    if (fscanf (in, "%15s", role) != 1) return 3;
+	    r = role_of (role);
+	    fc_read_ints (in, v, 1);
+	    pixman_image_set_repeat (simg[r], (pixman_repeat_t)v[0]);
 	}
 	else if (!strcmp (cmd, "C"))
 	{
@@ -277,7 +342,7 @@ main (int argc, char **argv)
 	}
 	else if (!strcmp (cmd, "S"))
 	{
-	    fc_log_setup (&dst, &cst[0], &dalpha, d_ox, d_oy, &cst[1], &cst[2], NULL);
+	    fc_log_setup (&dst, &cst[0], d_attached ? &dalpha : NULL, d_ox, d_oy, &cst[1], &cst[2], NULL);
 	}
 	else if (!strcmp (cmd, "composite"))
 	{
@@ -326,7 +391,7 @@ main (int argc, char **argv)
 	    fc_log_quads ("boxes", vals, n, 4);
 	    vt_bool ("ret", ret);
 	    fc_log_store ("after", &dst);
-	    if (dalpha.img)
+	    if (d_attached)
 		fc_log_store ("aafter", &dalpha);
 	    else
 		fprintf (vt_out, ",\"aafter\":[]");
